@@ -20,11 +20,12 @@ import RumaModel.Lemmas.PushMatch
 import RumaModel.Lemmas.PushPath
 import RumaModel.Lemmas.PushCount
 import RumaModel.Lemmas.PushCond
+import RumaModel.Lemmas.PushUnique
 namespace Ruma.Props.C12
 open Ruma.Push
 open Ruma.Spec.Glob (Glob WordMatch globDecide wordDecide wordMatches valueMatches)
 open Ruma.Spec.Push (CondHolds JsonIs kindRank orderedRules ruleHolds MemberCountDenotes MemberCountHolds
-  memberCountDecide hasMentions lookupStr lookup sentBySelf)
+  memberCountDecide hasMentions lookupStr lookup sentBySelf KeysUnique KeysUniqueFields leaves pathString)
 
 /-- The decision procedure `globDecide` is sound and complete for the inductive glob relation, for
 every pattern and every text. -/
@@ -436,6 +437,82 @@ theorem getActions_eq {α : Type} (acts : AnyRule → List α) (E : Ext) (hE : E
   rw [getMatch_spec E hE]
   cases Ruma.Spec.Push.getMatch (paramsOf E) rs ev ctx <;> rfl
 
+/-- Reading aid for the spec's word matching: for a non-empty pattern without wildcards it says
+exactly "the pattern occurs in the text, and neither end of the occurrence is in the middle of a
+word" (`bnd l r`: the last character of `l` and the first of `r` are not both in `[A-Za-z0-9_]`). -/
+theorem wordMatch_literal_is_occurrence (p s : Text) (hp : p ≠ []) (hlit : ∀ c ∈ p, c ≠ '*' ∧ c ≠ '?') :
+    WordMatch p s ↔ ∃ a b, s = a ++ p ++ b ∧ bnd a (p ++ b) = true ∧ bnd (a ++ p) b = true :=
+  WordMatch_literal hp hlit s
+
+example : "foo".toList ≠ [] ∧ ∀ c ∈ "foo".toList, c ≠ '*' ∧ c ≠ '?' := by decide
+
+/-- The examples of the Matrix specification ("Conditions": `lunc?*` on `content.body`-like values,
+`ex*ple` word matching) and of the upstream test-suite, evaluated with the spec's decision
+procedures (lower-casing already applied). -/
+example : wordDecide "ex*ple".toList "an example event.".toList = true := by decide
+example : wordDecide "ex*ple".toList "exple".toList = true := by decide
+example : wordDecide "ex*ple".toList "an exciting triple-whammy".toList = true := by decide
+example : globDecide "lunc?*".toList "lunch plans".toList = true := by decide
+example : globDecide "lunc?*".toList "lunch".toList = true := by decide
+example : globDecide "lunc?*".toList " lunch".toList = false := by decide
+example : globDecide "lunc?*".toList "lunc".toList = false := by decide
+example : wordDecide "foo".toList "foobar foo".toList = true := by decide
+example : wordDecide "foo".toList "foobar foobar".toList = false := by decide
+example : wordDecide "bar bar".toList "foobar bar bar".toList = true := by decide
+example : wordDecide "a*b".toList "a\nb".toList = true := by decide
+example : wordDecide [] [] = true ∧ wordDecide [] "foo".toList = false := by decide
+
+/-- Disabled rules are irrelevant, stated outright: deleting every disabled rule from the ruleset
+does not change what `get_match` returns, for any event and context. -/
+theorem getMatch_ignores_disabled (E : Ext) (hE : ExtOk E) (rs : Ruleset) (ev : PJ) (ctx : Ctx) :
+    getMatch E
+        { override_ := rs.override_.filter (·.enabled), content := rs.content.filter (·.enabled),
+          room := rs.room.filter (·.enabled), sender := rs.sender.filter (·.enabled),
+          underride := rs.underride.filter (·.enabled) } ev ctx =
+      getMatch E rs ev ctx := by
+  rw [getMatch_spec E hE, getMatch_spec E hE]
+  unfold Ruma.Spec.Push.getMatch
+  congr 1
+  split
+  · rfl
+  · have key : ∀ (l : List AnyRule), (l.filter Ruma.Spec.Push.enabled).find? (ruleHolds (paramsOf E) ev ctx) =
+        l.find? (ruleHolds (paramsOf E) ev ctx) := by
+      intro l
+      induction l with
+      | nil => rfl
+      | cons a t ih =>
+        by_cases ha : Ruma.Spec.Push.enabled a = true
+        · rw [List.filter_cons_of_pos ha, List.find?_cons, List.find?_cons, ih]
+        · have hf : ruleHolds (paramsOf E) ev ctx a = false := by
+            unfold ruleHolds; simp [ha]
+          rw [List.filter_cons_of_neg ha, List.find?_cons, hf, ih]
+    rw [← key (orderedRules rs)]
+    congr 1
+    simp only [orderedRules, List.filter_append, List.filter_map]
+    rfl
+
+/-- The sender-is-self shortcut exists at all three levels: for an event the user sent themselves
+every condition and every rule answers `false` on its own, not only `get_match`. -/
+theorem self_sent_nothing_applies (E : Ext) (ev : FMap) (ctx : Ctx) (h : selfSent ev ctx = true) :
+    (∀ c : Cond, c.applies E ev ctx = .ok false) ∧ (∀ r : AnyRule, r.applies E ev ctx = .ok false) := by
+  refine ⟨fun c => ?_, fun r => ?_⟩
+  · simp [Cond.applies, h]
+  · simp [AnyRule.applies, h]
+
+/-- Dot-path addressing is unambiguous: in an event no object of which has a key twice (every
+`serde_json::Value`), distinct leaves have distinct escaped property paths — whatever `.` and `\`
+the keys contain — and every leaf is exactly what its own path looks up (so "the last leaf with
+that path" in `lookup` is "the leaf with that path"). -/
+theorem property_paths_unambiguous (ev : PJ) (h : KeysUnique ev) :
+    ((leaves ev []).map fun e => pathString e.1).Nodup ∧
+    ∀ e ∈ leaves ev [], lookup ev (pathString e.1) = some e.2 ∧
+      (flatten ev).get (pathString e.1) = some (toF e.2) :=
+  ⟨leaves_paths_nodup ev h, fun e he =>
+    ⟨lookup_leaf ev h e he, by rw [flatten_get, lookup_leaf ev h e he]; rfl⟩⟩
+
+example : KeysUnique (.obj [("a.b".toList, .obj [("c".toList, .int 1)]), ("a".toList, .obj [("b.c".toList, .int 2)])]) := by
+  simp [KeysUnique, KeysUniqueFields]
+
 end Ruma.Props.C12
 
 #print axioms Ruma.Props.C12.globDecide_iff_Glob
@@ -468,3 +545,7 @@ end Ruma.Props.C12
 #print axioms Ruma.Props.C12.rule_applies_shapes
 #print axioms Ruma.Props.C12.room_sender_rule_equality
 #print axioms Ruma.Props.C12.getActions_eq
+#print axioms Ruma.Props.C12.wordMatch_literal_is_occurrence
+#print axioms Ruma.Props.C12.getMatch_ignores_disabled
+#print axioms Ruma.Props.C12.self_sent_nothing_applies
+#print axioms Ruma.Props.C12.property_paths_unambiguous
